@@ -241,7 +241,9 @@ def main():
 
     def vec_items(e, x):
         x = deref(e, x)
-        if isinstance(x, tuple) and x[0] == "vec":
+        if isinstance(x, tuple) and x[0] == "arc":
+            x = x[1]
+        if isinstance(x, tuple) and x[0] in ("vec", "vecv"):
             return x[1]
         raise Unsupported("vector expected: %r" % (str(x)[:60],))
 
@@ -488,6 +490,10 @@ def main():
         (r"^Vec::<Expression>::(?:with_capacity|new)$", lambda e, m, a: ("vec", [])),
         (r"^Vec::<Expression>::push$", m_vec_push),
         (r"^Vec::<Expression>::len$", lambda e, m, a: len(vec_items(e, a[0]))),
+        (r"^Vec::<Expression>::is_empty$", lambda e, m, a: len(vec_items(e, a[0])) == 0),
+        (r"^HashMap::<Key, Value>::len$", lambda e, m, a: z3.Int("maplen")),
+        (r"^Vec::<u8>::len$", lambda e, m, a: z3.Int("byteslen")),
+        (r"^(?:Vec::<Value>|core::slice::<impl \[Value\]>)::len$", lambda e, m, a: len(vec_items(e, deref(e, a[0])[1] if isinstance(deref(e, a[0]), tuple) and deref(e, a[0])[0] == "arc" else a[0])) if True else 0),
         (r"^<Vec<Expression> as Deref>::deref$", lambda e, m, a: a[0]),
         (r"^core::slice::<impl \[Expression\]>::iter$", lambda e, m, a: ["expr_iter", list(vec_items(e, a[0]))]),
         (r"^<std::slice::Iter<'_, Expression> as Iterator>::cloned::<.*>$", lambda e, m, a: a[0]),
@@ -1007,7 +1013,7 @@ def main():
         stats["scenarios"] += 1
         desc = {"operator": "call %s/%d %s target, %s%s" % (name, nargs, "with" if has_target else "no", "declared" if declared else "undeclared", "" if fn_outcome == "value" else ", the function returns " + fn_outcome),
                 "opcode": "CALL", "operands": [target_kind] if has_target else [], "function_outcome": fn_outcome,
-                "call_replay": [nargs, int(has_target), int(declared), int(target_kind == "err"), {"f": 0, "_f": 1, "@f": 2, ".f": 3}.get(name, 0)]}
+                "call_replay": [nargs, int(has_target), int(declared), int(target_kind == "err"), {"f": 0, "_f": 1, "@f": 2, ".f": 3}.get(name, 0)], "function_name": name}
 
         def entry(e):
             cur.clear()
@@ -1106,6 +1112,13 @@ def main():
                         if not has_target:
                             # the root-qualified spelling `.f(..)`: the name with its dot is what is looked up and reported
                             run_call_scenario(nargs, has_target, declared, tk, ".f")
+                        if declared and has_target and nargs <= 1:
+                            # a function named like a built-in is a function like any other at the call site (a host function
+                            # registered under that name has replaced the built-in): receivers of the kinds the built-ins act on
+                            for bname in ("size", "contains", "string", "max"):
+                                for rk in ("list", "string", "map", "int"):
+                                    if tk == "int":
+                                        run_call_scenario(nargs, has_target, declared, rk, bname)
                         if declared and tk != "err":
                             # whatever the function returns - an error about its arguments included - is the node's result; the
                             # call is made once
